@@ -147,6 +147,13 @@ pub fn start_fsm_with_data_and_finish_mode(
         .spawn(move || {
             #[cfg(feature = "Debug")]
             debug!("SM Session {} starting...", session_id);
+            if !is_datamodel_registered(sm.datamodel.as_str()) {
+                error!(
+                    "Unsupported Data Model '{}', session {} can't be executed",
+                    sm.datamodel, session_id
+                );
+                return;
+            }
             {
                 let mut datamodel = create_datamodel(sm.datamodel.as_str(), global_data, &options);
                 {
@@ -3623,17 +3630,27 @@ pub fn register_datamodel(name: &str, factory: Box<dyn DatamodelFactory>) {
         .insert(name.to_lowercase(), factory);
 }
 
+/// Checks if a datamodel with this name (case-insensitive) is registered.
+pub fn is_datamodel_registered(name: &str) -> bool {
+    datamodel_factories
+        .lock()
+        .unwrap()
+        .contains_key(&name.to_lowercase())
+}
+
 pub fn create_datamodel(
     name: &str,
     global_data: GlobalDataArc,
     options: &HashMap<String, String>,
 ) -> Box<dyn Datamodel> {
-    match datamodel_factories
+    // Release the factory lock before a possible panic, a poisoned lock would stop every later session.
+    let datamodel = datamodel_factories
         .lock()
         .unwrap()
         .get_mut(&name.to_lowercase())
-    {
-        Some(factory) => factory.create(global_data, options),
+        .map(|factory| factory.create(global_data, options));
+    match datamodel {
+        Some(datamodel) => datamodel,
         None => panic!("Unsupported Data Model '{}'", name),
     }
 }
